@@ -52,14 +52,14 @@ func (zo *Object) IsInstanceOf(classModel *ClassModel) bool {
 
 // GetProperty -
 func (zo *Object) GetProperty(name string) (r.Element, error) {
+	// a property the type declares goes first: whatever its name, what was written is what is read
+	if prop, ok := zo.propList[name]; ok {
+		return prop, nil
+	}
 	// internal properties
 	switch name {
 	case "自身":
 		return zo, nil
-	}
-
-	if prop, ok := zo.propList[name]; ok {
-		return prop, nil
 	}
 	return nil, zerr.PropertyNotFound(name)
 }
